@@ -19,6 +19,7 @@ func c03Run(c hCase) Verdict {
 		return Verdict{Inconclusive: run.incon}
 	}
 	m := newMonitor(c)
+	m.preload(run.pre)
 	v := Verdict{}
 	all := run
 	if k := closedByShutdown(c, run); k >= 0 {
@@ -42,7 +43,7 @@ func c03Run(c hCase) Verdict {
 	if e := traceInvariants(c, run); e != "" {
 		return failf("trace", "%s\nhistory: %v", e, cmdNames(c.Cmds))
 	}
-	if bad := sessionInvariants(append(flatEvents(all), all.tail...), run.rig.Leftover); bad != nil {
+	if bad := sessionInvariants(append(append(append([]harnessPkg.Event(nil), all.pre...), flatEvents(all)...), all.tail...), run.rig.Leftover); bad != nil {
 		return *bad
 	}
 	if p := run.rig.Log.Panicked(); p != "" {
